@@ -59,6 +59,8 @@ def check_point(ctx, P, e, key):
         ok &= _cmp(ctx, key, "T_SO3_quat_P", np.moveaxis(dT, 2, 0) * s * s, e["dT"], P)
         dTi = R.T_SO3_inv_quat_P(Pf.copy())
         ok &= _cmp(ctx, key, "T_SO3_inv_quat_P", np.moveaxis(dTi, 2, 0) * 2, e["dTi"], P)
+        ok &= _cmp(ctx, key, "T_SO3_quat_P(normalize=False)", np.moveaxis(R.T_SO3_quat_P(Pf.copy(), normalize=False), 2, 0) / 2, e["dTun"], P)
+        ok &= _cmp(ctx, key, "T_SO3_inv_quat_P(normalize=False)", np.moveaxis(R.T_SO3_inv_quat_P(Pf.copy(), normalize=False), 2, 0) * 2, e["dTi"], P)
         for i, Q in enumerate(QFIXED):
             ok &= _cmp(ctx, key, "quatprod", R.quatprod(Pf.copy(), Q.copy()), e["qprod"][i], P)
             ok &= _cmp(ctx, key, "quatprod(Q,P)", R.quatprod(Q.copy(), Pf.copy()), e["qprodr"][i], P)
